@@ -339,9 +339,9 @@ def gen_template(rng, focus="values", findings=False):
     decls = gen_parameters(rng, tenv)
     for m in rng.sample(["M", "RegionMap"], rng.randint(0, 2)):
         tenv.mappings[m] = {}
-        for k1 in rng.sample(["k1", "eu-west-1", "prod", "a"], rng.randint(1, 3)):
+        for k1 in rng.sample(["k1", "eu-west-1", "prod", "a", "True", "FALSE", "true"], rng.randint(1, 3)):
             tenv.mappings[m][k1] = {}
-            for k2 in rng.sample(["s", "l", "b", "v1"], rng.randint(1, 3)):
+            for k2 in rng.sample(["s", "l", "b", "v1", "False", "TRUE"], rng.randint(1, 3)):
                 tenv.mappings[m][k1][k2] = tenv.mapping_leaf()
     conds = gen_conditions(rng, g)
     d = rng.choice([1, 2, 2, 3])
